@@ -211,6 +211,35 @@ func VC01RoundTrip() {
 		}
 	}
 	vAssert(gi == len(got), "iterator returned no extra message")
+	// the documented reuse patterns: NextInto with one reused Message whose Data starts as a zero-length slice with
+	// spare capacity, and Next with such a scratch buffer; every message must be complete when it is returned
+	for pass := 0; pass < 2; pass++ {
+		r2, err := NewReader(vReadOnly{vNewSource(file)})
+		vAssert(err == nil, "NewReader (reuse pass)")
+		it2, err := r2.Messages(UsingIndex(false))
+		vAssert(err == nil, "Messages (reuse pass)")
+		reused := &Message{Data: make([]byte, 0, 16)}
+		scratch := make([]byte, 0, 16)
+		k := 0
+		for i := range wl.recs {
+			if wl.recs[i].kind != vKMessage {
+				continue
+			}
+			var m *Message
+			var err error
+			if pass == 0 {
+				_, _, m, err = it2.NextInto(reused)
+			} else {
+				_, _, m, err = it2.Next(scratch)
+			}
+			vAssert(err == nil, "reuse pass: message available")
+			if err != nil {
+				break
+			}
+			vAssert(len(m.Data) == len(wl.recs[i].msg.Data) && vMessageEq(m, wl.recs[i].msg), "message complete and equal when a caller-supplied buffer is reused")
+			k++
+		}
+	}
 	nm := 0
 	for i := range wl.recs {
 		if wl.recs[i].kind == vKMetadata {
